@@ -176,6 +176,8 @@ func VerifC19_SelectVersion() {
 		return
 	}
 	want := refSelectIdx(res, order)
+	rt.Observe("selected", indexIn(order, res.SelectedVersion))
+	rt.ObserveStr("selected-version", res.SelectedVersion.VersionNumber)
 	rt.Assert(indexIn(order, res.SelectedVersion) == want, "select/matches-documented-order")
 	// sorted newest first afterwards
 	for i := 0; i+1 < len(res.Versions); i++ {
@@ -205,6 +207,8 @@ func VerifC19_Blacklist() {
 	}
 	wasBlacklisted := target.Blacklisted
 	err := res.Blacklist(target.VersionNumber)
+	rt.ObserveBool("refused", err != nil)
+	rt.Observe("selected", indexIn(newestFirst(res.Versions), res.SelectedVersion))
 	rt.Assert((err != nil) == (valid <= 1), "blacklist/refused-iff-last-valid-version")
 	if err != nil {
 		rt.Assert(target.Blacklisted == wasBlacklisted, "blacklist/refused-leaves-flag")
